@@ -262,7 +262,7 @@ package core
 // the value recomputed from the execution results: gas used, log bloom, receipt root, state root.
 //@ macro eip158at(v, block) = v.config.EIP158Block != nil && block.header.Number != nil && big(v.config.EIP158Block) <= big(block.header.Number)
 //@ func BlockValidator.ValidateState
-//@   requires v != nil && v.config != nil && block != nil && block.header != nil && block.header.Number != nil && statedb != nil
+//@   requires[C01v] v != nil && v.config != nil && block != nil && block.header != nil && block.header.Number != nil && statedb != nil
 //@   ensures[C01] @gas result == nil ==> old(block.header.GasUsed) == usedGas
 //@   ensures[C01] @bloom result == nil ==> old(block.header.Bloom) == createbloomf(receipts)
 //@   ensures[C01] @receipts result == nil ==> old(block.header.ReceiptHash) == derivesha_receipts(receipts)
@@ -282,7 +282,7 @@ package core
 // A block passes ValidateBody only if its transaction root and uncle hash equal the values
 // recomputed from its body (and the engine accepted the uncles, and the parent is known).
 //@ func BlockValidator.ValidateBody
-//@   requires v != nil && v.bc != nil && block != nil && block.header != nil
+//@   requires[C01v] v != nil && v.bc != nil && block != nil && block.header != nil
 //@   ensures[C01] @txroot result == nil ==> old(block.header.TxHash) == derivesha_txs(old(block.transactions))
 //@   ensures[C01] @unclehash result == nil ==> old(block.header.UncleHash) == unclehashf(blockuncles(block))
 
